@@ -26,11 +26,11 @@ theorem call_resetAll {t : Table} (hok : sigOK t = true) {Γ Γ' Γ1 : SEnv} {σ
     (hs : sig ∈ t.sigs) (hop : sig.op = .resetAll) (he : e ∈ Γ.ents) (hv : e.valid = true)
     (happ : applicable t sig.ownerK e = true) (hacc : Γ.access e (effRecv sig) = .ok Γ1)
     (hres : mkResult x Γ.depth e (effRecv sig).mode sig.ret sig.lts = some res)
-    (hdecl : match res with | none => Γ' = Γ1 | some ne => Γ1.declare ne = .ok Γ') :
+    (hdecl : DeclRes Γ1 Γ' res) :
     ∃ σ', runCall σ x e.var .resetAll = .ok σ' ∧ Inv Γ' σ' := by
   rcases inv.get_of_valid he hv with ⟨r, hr, ht⟩
   rcases unit_shape (sigOK_sig hok hs) (Or.inr hop) hres with ⟨rfl, hrecv, hnc, _, hown⟩
-  simp only at hdecl
+  simp only [DeclRes] at hdecl
   subst hdecl
   have hkinds := applicable_kinds (sigOK_impls hok) happ
   have heff : effRecv sig = .refMut := by rw [effRecv_of_not_claim hnc]; exact hrecv
@@ -58,5 +58,341 @@ theorem call_resetAll {t : Table} (hok : sigOK t = true) {Γ Γ' Γ1 : SEnv} {σ
         apply inv.no_val_covered he hv hr hvΓ hvv hvk hno hrv hex
         exact ⟨Or.inr (Or.inr ⟨hkinds, hm⟩), fun hg => by rw [hkinds] at hg; cases hg⟩
   · cases h
+
+/-! ### `BumpPool::get` -/
+
+theorem poolGet_shape {s : Sig} (had : sigAdequate s = true) (hop : s.op = .poolGet) {x : Var} {d : Nat} {e : Entry}
+    {m : Mode} {res : Option Entry} (h : mkResult x d e m s.ret s.lts = some res) :
+    res = some ⟨x, .poolGuard, .own, .borrow e.var m :: e.self, .borrow e.var m :: e.self, true, d⟩ ∧
+    s.ownerK = .pool ∧ s.recv ≠ .value ∧ s.ret ≠ .claimGuard := by
+  unfold sigAdequate at had
+  rw [hop] at had
+  simp only [Bool.and_eq_true, bne_iff_ne, ne_eq, beq_iff_eq] at had
+  rcases had with ⟨⟨⟨ho, hnv⟩, hret⟩, hlts⟩
+  rw [hret, hlts] at h
+  simp [mkResult] at h
+  exact ⟨h.symm, ho, hnv, by rw [hret]; decide⟩
+
+theorem DState.newArena_eq (σ : DState) : ({ σ with arenas := σ.arenas ++ [[σ.next]], next := σ.next + 1 } : DState) = σ.newArena := rfl
+
+theorem call_poolGet {t : Table} (hok : sigOK t = true) {Γ Γ' Γ1 : SEnv} {σ : DState} (inv : Inv Γ σ)
+    {sig : Sig} {e : Entry} {res : Option Entry} {x : Var}
+    (hs : sig ∈ t.sigs) (hop : sig.op = .poolGet) (he : e ∈ Γ.ents) (hv : e.valid = true)
+    (happ : applicable t sig.ownerK e = true) (hacc : Γ.access e (effRecv sig) = .ok Γ1)
+    (hres : mkResult x Γ.depth e (effRecv sig).mode sig.ret sig.lts = some res)
+    (hdecl : DeclRes Γ1 Γ' res) :
+    ∃ σ', runCall σ x e.var .poolGet = .ok σ' ∧ Inv Γ' σ' := by
+  rcases inv.get_of_valid he hv with ⟨r, hr, ht⟩
+  rcases poolGet_shape (sigOK_sig hok hs) hop hres with ⟨rfl, ho, hnv, hnc⟩
+  simp only [DeclRes] at hdecl
+  have hkinds := applicable_kinds (sigOK_impls hok) happ
+  rw [ho] at hkinds; simp only [ownerKinds] at hkinds
+  have hnv' : effRecv sig ≠ .value := by rw [effRecv_of_not_claim hnc]; exact hnv
+  refine ⟨_, runCall_pool hr (by rw [ht.1]; exact hkinds), ?_⟩
+  show Inv Γ' ((σ.newArena.set e.var { r with arenas := σ.arenas.length :: r.arenas }).set x (Rt.hdl .poolGuard σ.arenas.length))
+  rcases access_afterUse inv he hv hacc with ⟨inv1, hau, hkeepE, _, _⟩
+  rcases declare_ok hdecl with ⟨hfresh, rfl⟩
+  have he1 : e ∈ Γ1.ents := hkeepE hnv'
+  have hpoolT := ht.2.2.1 hkinds
+  -- 1. the new arena; 2. the pool records it
+  have inv2 := inv1.newArena
+  have hr2 : σ.newArena.get e.var = some r := hr
+  have inv3 : Inv Γ1 (σ.newArena.set e.var { r with arenas := σ.arenas.length :: r.arenas }) := by
+    apply inv2.rebind he1 hv hr2 { r with arenas := σ.arenas.length :: r.arenas } rfl
+    · refine ⟨ht.1, ?_, ?_, ?_, ?_, ?_, ?_⟩
+      · intro h; rw [hkinds] at h; cases h
+      · intro _
+        refine ⟨hpoolT.1, ?_⟩
+        intro a ha
+        simp only [DState.newArena, List.length_append, List.length_cons, List.length_nil]
+        rcases List.mem_cons.1 ha with rfl | ha
+        · omega
+        · have := hpoolT.2 a ha; omega
+      · intro h; simp [Entry.isHandle, hkinds] at h
+      · intro h; rw [hkinds] at h; cases h
+      · intro ex hex; exact Nat.lt_succ_of_lt (ht.2.2.2.2.2.1 ex hex)
+      · intro h; rw [hkinds] at h; cases h
+    · intro h; rw [hkinds] at h; cases h
+    · intro v hv1 hvv hvk _ rv hrv ex hex hend
+      apply (inv2.vals v hv1 hvv hvk rv hrv ex hex).2 e he1 hv r hr2
+      refine ⟨?_, fun hg => by rw [hkinds] at hg; cases hg⟩
+      rcases hend.1 with ⟨hg, _⟩ | ⟨hb, _⟩ | ⟨_, hm⟩
+      · rw [hkinds] at hg; cases hg
+      · rw [hkinds] at hb; cases hb
+      · rcases List.mem_cons.1 hm with h | h
+        · exfalso
+          have := inv1.val_arena_lt hv1 hvv hvk (show σ.get v.var = some rv from hrv) hex
+          omega
+        · exact Or.inr (Or.inr ⟨hkinds, h⟩)
+    · intro h hh hvh hH _ rh hrh hon
+      apply inv2.handles h hh hvh hH rh hrh e he1 hv (fun heq => by
+        have := inv1.eq_of_var_eq he1 hh heq; subst this
+        simp [Entry.isHandle, hkinds] at hH) r hr2
+      rcases hon with ⟨hg, _⟩ | ⟨hb, _⟩ | ⟨_, hm⟩
+      · rw [hkinds] at hg; cases hg
+      · rw [hkinds] at hb; cases hb
+      · rcases List.mem_cons.1 hm with h' | h'
+        · exfalso
+          have := inv1.handle_arena_lt hh hvh hH (show σ.get h.var = some rh from hrh)
+          omega
+        · exact Or.inr (Or.inr ⟨hkinds, h'⟩)
+  -- 3. the guard on the new arena
+  have hxe : x ≠ e.var := fun h => hfresh (h ▸ inv1.used e he1)
+  have hget3 : ∀ g ∈ Γ1.ents, g.var ≠ e.var →
+      (σ.newArena.set e.var { r with arenas := σ.arenas.length :: r.arenas }).get g.var = σ.get g.var :=
+    fun g _ hne => DState.get_set_ne _ _ hne
+  have hnotOn : ∀ a, ¬ EnderOn (σ.newArena.set e.var { r with arenas := σ.arenas.length :: r.arenas })
+      ⟨x, .poolGuard, .own, .borrow e.var (effRecv sig).mode :: e.self, .borrow e.var (effRecv sig).mode :: e.self, true, Γ.depth⟩
+      (Rt.hdl .poolGuard σ.arenas.length) a := by
+    intro a hon
+    rcases hon with ⟨hk, _⟩ | ⟨hk, _⟩ | ⟨hk, _⟩ <;> cases hk
+  -- nothing that existed before lives on the new arena
+  have hnoHandle : ∀ h ∈ Γ1.ents, h.valid = true → h.isHandle = true → ∀ rh,
+      (σ.newArena.set e.var { r with arenas := σ.arenas.length :: r.arenas }).get h.var = some rh →
+      rh.arena ≠ σ.arenas.length := by
+    intro h hh hvh hH rh hrh heq
+    have hne : h.var ≠ e.var := fun heq' => by
+      have := inv1.eq_of_var_eq hh he1 heq'; subst this
+      simp [Entry.isHandle, hkinds] at hH
+    rw [hget3 h hh hne] at hrh
+    have := inv1.handle_arena_lt hh hvh hH hrh
+    omega
+  apply inv3.add _ (Rt.hdl .poolGuard σ.arenas.length) hfresh rfl
+  · refine ⟨rfl, ?_, ?_, ?_, ?_, ?_, ?_⟩
+    · intro h; cases h
+    · intro h; cases h
+    · intro _
+      show σ.newArena.epochs σ.arenas.length ≠ []
+      rw [DState.epochs_newArena_self]; simp
+    · intro h; cases h
+    · intro ex h; cases h
+    · intro h; cases h
+  · have hclosedP : ∀ p mo, Loan.borrow p mo ∈ Loan.borrow e.var (effRecv sig).mode :: e.self →
+        ∃ ep ∈ Γ1.ents, ep.var = p ∧ ep.valid = true ∧ ep.kind ≠ .val ∧
+          ∀ l ∈ ep.self, l ∈ Loan.borrow e.var (effRecv sig).mode :: e.self := by
+      intro p mo hp
+      rcases List.mem_cons.1 hp with h | h
+      · cases h
+        exact ⟨e, he1, rfl, hv, by rw [hkinds]; decide, fun l hl => List.mem_cons_of_mem _ hl⟩
+      · rw [hpoolT.1] at h; cases h
+    refine ⟨fun l hl => hl, hclosedP, ?_⟩
+    intro p mo hp ep hep hpv l hl
+    rcases hclosedP p mo hp with ⟨ep0, hep0, h1, _, _, h4⟩
+    have := inv1.eq_of_var_eq hep hep0 (hpv.trans h1.symm)
+    subst this; exact h4 l hl
+  · intro h; cases h
+  · intro v _ _ _ rv _ ex _ hend; exact absurd hend.1 (hnotOn _)
+  · -- the only ender of the new arena is the pool
+    intro _ g hg hgv rg hrg hon
+    left
+    by_cases hge : g.var = e.var
+    · have := inv1.eq_of_var_eq hg he1 hge; subst this
+      exact Region.on_cons_self _ _ _
+    · exfalso
+      rw [hget3 g hg hge] at hrg
+      have hon' : EnderOn σ.newArena g rg σ.arenas.length := hon
+      have := inv1.ender_arena_lt hg hgv hrg (EnderOn_of_newArena inv1 hg hgv hrg hon')
+      omega
+  · intro h _ _ _ rh _ hon; exact absurd hon (hnotOn _)
+  · intro _ _ h2 hh2 hv2 hH2 r2 hr2' har
+    exact absurd har.symm (hnoHandle h2 hh2 hv2 hH2 r2 hr2')
+  · intro _ h1 hh1 hv1 hH1 _ r1 hr1 har
+    exact absurd har (hnoHandle h1 hh1 hv1 hH1 r1 hr1)
+
+/-! ### `with_settings(self)` -/
+
+theorem convert_shape {s : Sig} (had : sigAdequate s = true) (hop : s.op = .convert) {x : Var} {d : Nat} {e : Entry}
+    {m : Mode} {res : Option Entry} (h : mkResult x d e m s.ret s.lts = some res) :
+    s.recv = .value ∧ s.ret ≠ .claimGuard ∧
+    ((s.ownerK = .bump ∧ res = some ⟨x, .bump, .own, [], [], true, d⟩) ∨
+     (s.ownerK = .scope ∧ res = some ⟨x, .scope, .own, e.param, e.param, true, d⟩)) := by
+  unfold sigAdequate at had
+  rw [hop] at had
+  simp only [Bool.and_eq_true, beq_iff_eq] at had
+  rcases had with ⟨hrecv, hshape⟩
+  cases ho : s.ownerK <;> rw [ho] at hshape <;> (try simp only at hshape) <;> try (exact absurd hshape Bool.false_ne_true)
+  · cases hr : s.ret <;> rw [hr] at hshape h <;> (try simp only at hshape) <;> try (exact absurd hshape Bool.false_ne_true)
+    rcases hl : s.lts with _ | ⟨l0, _⟩ <;> rw [hl] at hshape h <;> (try simp only at hshape) <;>
+      try (exact absurd hshape Bool.false_ne_true)
+    simp [mkResult] at h
+    exact ⟨hrecv, by decide, Or.inl ⟨rfl, h.symm⟩⟩
+  · cases hr : s.ret <;> rw [hr] at hshape h <;> (try simp only at hshape) <;> try (exact absurd hshape Bool.false_ne_true)
+    rcases hl : s.lts with _ | ⟨l0, _ | _⟩ <;> rw [hl] at hshape h <;> (try simp only at hshape) <;>
+      try (exact absurd hshape Bool.false_ne_true)
+    cases l0 <;> (try simp only at hshape) <;> try (exact absurd hshape Bool.false_ne_true)
+    simp [mkResult, evalLt] at h
+    exact ⟨hrecv, by decide, Or.inr ⟨rfl, h.symm⟩⟩
+
+theorem call_convert {t : Table} (hok : sigOK t = true) {Γ Γ' Γ1 : SEnv} {σ : DState} (inv : Inv Γ σ)
+    {sig : Sig} {e : Entry} {res : Option Entry} {x : Var}
+    (hs : sig ∈ t.sigs) (hop : sig.op = .convert) (he : e ∈ Γ.ents) (hv : e.valid = true)
+    (happ : applicable t sig.ownerK e = true) (hacc : Γ.access e (effRecv sig) = .ok Γ1)
+    (hres : mkResult x Γ.depth e (effRecv sig).mode sig.ret sig.lts = some res)
+    (hdecl : DeclRes Γ1 Γ' res) :
+    ∃ σ', runCall σ x e.var .convert = .ok σ' ∧ Inv Γ' σ' := by
+  rcases inv.get_of_valid he hv with ⟨r, hr, ht⟩
+  rcases convert_shape (sigOK_sig hok hs) hop hres with ⟨hrecv, hnc, hcase⟩
+  have hkinds := applicable_kinds (sigOK_impls hok) happ
+  have heff : effRecv sig = .value := by rw [effRecv_of_not_claim hnc]; exact hrecv
+  rcases access_afterUse inv he hv hacc with ⟨inv1, hau, _, _, hval⟩
+  rcases hval heff with ⟨hmv, hnclaim, hnpg, hΓ1⟩
+  have hmode : (effRecv sig).mode = .mut := by rw [heff]; rfl
+  have hc := inv.closed e he hv
+  -- entries that survive the move hold no loan on the receiver
+  have hsurv : ∀ g ∈ Γ1.ents, g.valid = true → g ∈ Γ.ents ∧ g.self.on e.var = false ∧ g.var ≠ e.var := by
+    intro g hg hgv
+    rw [hΓ1] at hg
+    exact mem_remove_valid hg hgv
+  rcases hcase with ⟨ho, rfl⟩ | ⟨ho, rfl⟩
+  · -- a `Bump`
+    rw [ho] at hkinds; simp only [ownerKinds] at hkinds
+    have heH : e.isHandle = true := by simp [Entry.isHandle, hkinds]
+    rcases ht.kind_ne heH with ⟨hk1, hk2, hlive⟩
+    have hacc' : e.acc = .own := by
+      unfold Entry.movable at hmv
+      rcases (Bool.or_eq_true _ _).mp hmv with h | h
+      · simpa using h
+      · rw [hkinds] at h; simp at h
+    have hown : r.own = true := (ht.2.1 hkinds).1.2 hacc'
+    have hself : e.self = [] := (ht.2.1 hkinds).2 hacc'
+    have hparam : e.param = [] := by
+      cases hp : e.param with
+      | nil => rfl
+      | cons l ls => have := hc.1 l (by rw [hp]; exact List.mem_cons_self); rw [hself] at this; cases this
+    have hon : EnderOn σ e r r.arena := Or.inr (Or.inl ⟨hkinds, by rw [hacc']; decide, rfl⟩)
+    simp only [DeclRes] at hdecl
+    rcases declare_ok hdecl with ⟨hfresh, rfl⟩
+    refine ⟨σ.set x r, ?_, ?_⟩
+    · rw [runCall_handle hr hk1 hk2 hlive]; simp [ht.1, hkinds]
+    · -- nothing valid is left on the arena
+      have hnoHandle : ∀ h ∈ Γ1.ents, h.valid = true → h.isHandle = true → ∀ rh, σ.get h.var = some rh → rh.arena ≠ r.arena := by
+        intro h hh hvh hH rh hrh harena
+        rcases hsurv h hh hvh with ⟨hhΓ, hno, hne⟩
+        have := inv.handle_covered he hv hr hhΓ hvh hH (Ne.symm hne) hno hrh (harena ▸ hon)
+        rw [hself] at this; simp [Region.mutOn] at this
+      apply inv1.add ⟨x, .bump, .own, [], [], true, Γ.depth⟩ r hfresh rfl
+      · refine ⟨by rw [ht.1, hkinds], ?_, ?_, ?_, ?_, ht.2.2.2.2.2.1, ?_⟩
+        · intro _; exact ⟨⟨fun _ => rfl, fun _ => hown⟩, fun _ => rfl⟩
+        · intro h; cases h
+        · intro _; exact hlive
+        · intro h; cases h
+        · intro h; cases h
+      · refine ⟨fun l hl => hl, ?_, ?_⟩
+        · intro p m h; cases h
+        · intro p m h; cases h
+      · intro h; cases h
+      · intro v hv1 hvv hvk rv hrv ex hex hend
+        exfalso
+        rcases hsurv v hv1 hvv with ⟨hvΓ, hno, _⟩
+        apply inv.no_val_covered he hv hr hvΓ hvv hvk hno hrv hex
+        have harena : r.arena = rv.arena := by
+          rcases hend.1 with ⟨hg, _⟩ | ⟨_, _, ha⟩ | ⟨hp, _⟩
+          · cases hg
+          · exact ha
+          · cases hp
+        exact ⟨harena ▸ hon, fun hg => by rw [hkinds] at hg; cases hg⟩
+      · intro _ g hg hgv rg hrg hong
+        exfalso
+        rcases hsurv g hg hgv with ⟨hgΓ, hno, hne⟩
+        rcases inv.handles e he hv heH r hr g hgΓ hgv hne rg hrg hong with h | h
+        · rw [hparam] at h; simp [Region.on] at h
+        · have := Region.on_of_mutOn h
+          rw [hno] at this; exact Bool.false_ne_true this
+      · intro h hh hvh hH rh hrh honx
+        exfalso
+        rcases honx with ⟨hg, _⟩ | ⟨_, _, ha⟩ | ⟨hp, _⟩
+        · cases hg
+        · exact hnoHandle h hh hvh hH rh hrh ha.symm
+        · cases hp
+      · intro _ _ h2 hh2 hv2 hH2 r2 hr2 har
+        exact absurd har.symm (hnoHandle h2 hh2 hv2 hH2 r2 hr2)
+      · intro _ h1 hh1 hv1 hH1 _ r1 hr1 har
+        exact absurd har (hnoHandle h1 hh1 hv1 hH1 r1 hr1)
+  · -- an owned `BumpScope`
+    rw [ho] at hkinds; simp only [ownerKinds] at hkinds
+    have hk : e.kind = .scope := by
+      rcases hkinds with h | h | h
+      · exact h
+      · exact absurd h hnclaim
+      · exact absurd h hnpg
+    have heH : e.isHandle = true := by simp [Entry.isHandle, hk]
+    rcases ht.kind_ne heH with ⟨hk1, hk2, hlive⟩
+    have hacc' : e.acc = .own := by
+      unfold Entry.movable at hmv
+      rcases (Bool.or_eq_true _ _).mp hmv with h | h
+      · simpa using h
+      · rw [hk] at h; simp at h
+    have hW : ∀ l ∈ e.self, l ∈ e.param := ht.2.2.2.2.1 hk hacc'
+    simp only [DeclRes] at hdecl
+    rcases declare_ok hdecl with ⟨hfresh, rfl⟩
+    refine ⟨σ.set x r, ?_, ?_⟩
+    · rw [runCall_handle hr hk1 hk2 hlive]; simp [ht.1, hk]
+    · have hnotOn : ∀ a, ¬ EnderOn σ ⟨x, .scope, .own, e.param, e.param, true, Γ.depth⟩ r a := by
+        intro a hon
+        rcases hon with ⟨hg, _⟩ | ⟨hb, _⟩ | ⟨hp, _⟩ <;> cases ‹_ = _›
+      have hpne : ∀ p mo, Loan.borrow p mo ∈ e.self → p ≠ e.var := by
+        intro p mo hp hpe
+        have : e.self.on e.var = true := List.any_eq_true.2 ⟨_, hp, by simp [Loan.on, hpe]⟩
+        rw [hc.2.2.1] at this; exact Bool.false_ne_true this
+      apply inv1.add ⟨x, .scope, .own, e.param, e.param, true, Γ.depth⟩ r hfresh rfl
+      · refine ⟨by rw [ht.1, hk], ?_, ?_, ?_, ?_, ht.2.2.2.2.2.1, ?_⟩
+        · intro h; cases h
+        · intro h; cases h
+        · intro _; exact hlive
+        · intro _ _ l hl; exact hl
+        · intro h; cases h
+      · have hclosedP : ∀ p mo, Loan.borrow p mo ∈ e.param →
+            ∃ ep ∈ Γ1.ents, ep.var = p ∧ ep.valid = true ∧ ep.kind ≠ .val ∧ ∀ l ∈ ep.self, l ∈ e.param := by
+          intro p mo hp
+          have hps := hc.1 _ hp
+          rcases hc.2.1 p mo hps with ⟨ep, hep, h1, h2, h3, h4⟩
+          exact ⟨ep, hau.keep ep hep h2 h4 (h1 ▸ hpne p mo hps), h1, h2, h3, hc.2.2.2 p mo hp ep hep h1⟩
+        refine ⟨fun l hl => hl, hclosedP, ?_⟩
+        intro p mo hp ep hep hpv l hl
+        rcases hclosedP p mo hp with ⟨ep0, hep0, h1, _, _, h4⟩
+        have := inv1.eq_of_var_eq hep hep0 (hpv.trans h1.symm)
+        subst this; exact h4 l hl
+      · intro h; cases h
+      · intro v _ _ _ rv _ ex _ hend; exact absurd hend.1 (hnotOn _)
+      · intro _ g hg hgv rg hrg hong
+        rcases hsurv g hg hgv with ⟨hgΓ, hno, hne⟩
+        rcases inv.handles e he hv heH r hr g hgΓ hgv hne rg hrg hong with h | h
+        · exact Or.inl h
+        · have := Region.on_of_mutOn h
+          rw [hno] at this; exact absurd this Bool.false_ne_true
+      · intro h _ _ _ rh _ hon; exact absurd hon (hnotOn _)
+      · intro _ _ h2 hh2 hv2 hH2 r2 hr2 har
+        rcases hsurv h2 hh2 hv2 with ⟨hhΓ, hno, hne⟩
+        rcases inv.uniq e he hv heH (by rw [hacc']; decide) h2 hhΓ hv2 hH2 (Ne.symm hne) r r2 hr hr2 har with h | h
+        · exact Or.inl (Region.mutOn_of_subset hW h)
+        · rw [hno] at h; exact absurd h Bool.false_ne_true
+      · intro _ h1 hh1 hv1 hH1 hacc1 r1 hr1 har
+        rcases hsurv h1 hh1 hv1 with ⟨hhΓ, hno, hne⟩
+        rcases inv.uniq h1 hhΓ hv1 hH1 hacc1 e he hv heH hne r1 r hr1 hr har with h | h
+        · have := Region.on_of_mutOn h
+          rw [hno] at this; exact absurd this Bool.false_ne_true
+        · exact Or.inr (Region.on_of_subset hW h)
+
+theorem step_call {t : Table} (hok : sigOK t = true) {fl : Flags} {Γ Γ' : SEnv} {σ : DState} (inv : Inv Γ σ)
+    {x h : Var} {op : Op} {owner name : String} (hc : checkStmt t fl Γ (.call x h op owner name) = .ok Γ') :
+    ∃ σ', runStmt fl σ (.call x h op owner name) = .ok σ' ∧ Inv Γ' σ' := by
+  simp only [checkStmt] at hc
+  rcases checkCall_ok hc with ⟨sig, e, Γ1, res, hs, hop, hne1, hne2, hl, happ, hacc, hres, hdecl⟩
+  rcases lookupValid_ok hl with ⟨he, rfl, hv⟩
+  simp only [runStmt]
+  subst hop
+  cases hop : sig.op
+  · exact call_alloc hok inv hs hop he hv happ hacc hres hdecl
+  · exact call_mkGuard hok inv hs hop he hv happ hacc hres hdecl
+  · exact call_guardScope hok inv hs hop he hv happ hacc hres hdecl
+  · exact call_guardReset hok inv hs hop he hv happ hacc hres hdecl
+  · exact call_resetAll hok inv hs hop he hv happ hacc hres hdecl
+  · exact call_viewScope hok inv hs hop he hv happ hacc hres hdecl
+  · exact call_viewSame hok inv hs hop he hv happ hacc hres hdecl
+  · exact call_claim hok inv hs hop he hv happ hacc hres hdecl
+  · exact call_poolGet hok inv hs hop he hv happ hacc hres hdecl
+  · exact call_convert hok inv hs hop he hv happ hacc hres hdecl
+  · exact absurd hop hne1
+  · exact absurd hop hne2
 
 end Life
